@@ -245,6 +245,13 @@ def obligations(tier):
                                       claim_doc='bonds, groups, num_volume, buried, energy_volume identical; pKa and determinants identical (keep-protons) / '
                                                 'within %.2f (built hydrogens, positions within rounding of the shifted ones)' % TOL,
                                       max_paths=5000, wall_s=170 if tier == 'quick' else 1200, query_timeout_ms=20000))
+    # a protein-ligand-ion micro-complex: the heavy-atom clauses (bonds incl. protein-ligand, protein / ligand / ion groups, desolvation, buried)
+    for ax, axn in (axes[:1] if tier == 'quick' else axes[:3]):
+        for params, ptag in (((M.BURIED, ',buried'),) if tier == 'quick' else ((None, ''), (M.BURIED, ',buried'))):
+            obs.append(Obligation('O1-translation[complex_MTX,%s,built-hydrogens%s]' % (axn, ptag), mk_translate('complex_MTX', ax, 0.0, 2.509, False, params=params), code=code_pipe + ['propka/ligand.py:assign_sybyl_type', 'propka/determinants.py:set_ion_determinants'],
+                                  bounds='methotrexate with the residues lining it and a chloride (cut from 4DFR)%s shifted by t = k/1000 along %s, t in [0,2.509]' % (' with Nmin/Nmax lowered to 6/30' if params else '', axn),
+                                  claim_doc='bonds, groups, num_volume, buried, energy_volume identical; hydrogens on amino-acid atoms at the shifted positions (pKa values and ligand hydrogens are not claimed: hetero groups are excluded by the statement)',
+                                  max_paths=5000, wall_s=170 if tier == 'quick' else 1200, split_input=('shift_thousandths', 8)))
     # burial switched on (Nmin/Nmax 6/30): Coulomb, iterative and coupling paths active
     for name in (['pair_ASP_ARG'] if tier == 'quick' else ['pair_ASP_ARG', 'pair_GLU_ARG_TYR', 'pair_ASP_ASP', 'pair_LYS_ASP', 'pep8']):
         for ax, axn in axes[:3]:
